@@ -1,1 +1,369 @@
+(* C10_Proofs.v — invariants of the clientProcessRunner transition system over ARBITRARY
+   action lists, and the proofs of the property theorems stated in C10_Props.v. *)
+From Coq Require Import Lia.
 From V Require Import C10_Spec.
+Open Scope N_scope.
+
+(* ====================================================================== *)
+(* pendingOps as an association list                                      *)
+(* ====================================================================== *)
+Definition ids (l : list (name * N)) : list N := map snd l.
+Definition nms (l : list (name * N)) : list name := map fst l.
+
+Lemma lookup_some n l i : lookup n l = Some i -> In (n, i) l.
+Proof.
+  induction l as [|[m j] l IH]; simpl; [discriminate|].
+  destruct (bytes_eqb_spec m n) as [->|Hne]; intros E.
+  - inversion E; subst; left; reflexivity.
+  - right; auto.
+Qed.
+
+Lemma lookup_none n l : lookup n l = None -> forall i, ~ In (n, i) l.
+Proof.
+  induction l as [|[m j] l IH]; simpl; [tauto|].
+  destruct (bytes_eqb_spec m n) as [->|Hne]; [discriminate|].
+  intros E i [H|H]; [inversion H; congruence|]. eapply IH; eauto.
+Qed.
+
+Lemma lookup_in n i l : NoDup (nms l) -> In (n, i) l -> lookup n l = Some i.
+Proof.
+  induction l as [|[m j] l IH]; simpl; [tauto|]. intros ND [H|H].
+  - inversion H; subst. rewrite bytes_eqb_refl. reflexivity.
+  - inversion ND as [|? ? Hn ND']; subst.
+    destruct (bytes_eqb_spec m n) as [->|Hne]; [|auto].
+    exfalso; apply Hn. change n with (fst (n, i)). apply in_map. exact H.
+Qed.
+
+Lemma remove_split n l i :
+  lookup n l = Some i -> exists l1 l2, l = l1 ++ (n, i) :: l2 /\ remove_name n l = l1 ++ l2.
+Proof.
+  induction l as [|[m j] l IH]; simpl; [discriminate|].
+  destruct (bytes_eqb_spec m n) as [->|Hne]; intros E.
+  - inversion E; subst. exists [], l. split; reflexivity.
+  - destruct (IH E) as (l1 & l2 & -> & R). exists ((m, j) :: l1), l2. simpl. rewrite R. split; reflexivity.
+Qed.
+
+Lemma nodup_map_remove {A B} (f : A -> B) l1 x l2 :
+  NoDup (map f (l1 ++ x :: l2)) -> NoDup (map f (l1 ++ l2)) /\ ~ In (f x) (map f (l1 ++ l2)).
+Proof.
+  rewrite !map_app. simpl. intros H. split.
+  - eapply NoDup_remove_1; eauto.
+  - eapply NoDup_remove_2; eauto.
+Qed.
+
+Lemma nodup_map_app_one {A B} (f : A -> B) l x :
+  NoDup (map f l) -> ~ In (f x) (map f l) -> NoDup (map f (l ++ [x])).
+Proof.
+  intros ND Hn. rewrite map_app. simpl.
+  apply NoDup_rev in ND. rewrite <- (rev_involutive (map f l ++ [f x])).
+  apply NoDup_rev. rewrite rev_app_distr. simpl. constructor; [|exact ND].
+  rewrite <- in_rev. exact Hn.
+Qed.
+
+(* ====================================================================== *)
+(* counting callback invocations                                          *)
+(* ====================================================================== *)
+Definition cnt (i : N) (f : list (N * outcome)) : nat := length (fired_of i f).
+
+Lemma cnt_app i f g : cnt i (f ++ g) = (cnt i f + cnt i g)%nat.
+Proof. unfold cnt, fired_of. rewrite filter_app, map_app, app_length. reflexivity. Qed.
+
+Lemma cnt_one_same i o : cnt i [(i, o)] = 1%nat.
+Proof. unfold cnt, fired_of. simpl. rewrite N.eqb_refl. reflexivity. Qed.
+
+Lemma cnt_one_other i j o : j <> i -> cnt i [(j, o)] = 0%nat.
+Proof. intros H. unfold cnt, fired_of. simpl. destruct (N.eqb_spec j i); [congruence|reflexivity]. Qed.
+
+Lemma cnt_drain_out i (g : name * N -> outcome) l :
+  ~ In i (ids l) -> cnt i (map (fun p => (snd p, g p)) l) = 0%nat.
+Proof.
+  induction l as [|[m j] l IH]; simpl; intros H; [reflexivity|].
+  change (cnt i (((j, g (m, j)) :: nil) ++ map (fun p => (snd p, g p)) l) = 0%nat).
+  rewrite cnt_app, cnt_one_other, IH; [reflexivity| |]; intros E; apply H; [right; exact E|left; exact E].
+Qed.
+
+Lemma cnt_drain_in i (g : name * N -> outcome) l :
+  NoDup (ids l) -> In i (ids l) -> cnt i (map (fun p => (snd p, g p)) l) = 1%nat.
+Proof.
+  induction l as [|[m j] l IH]; simpl; intros ND H; [tauto|].
+  inversion ND as [|? ? Hn ND']; subst.
+  change (cnt i (((j, g (m, j)) :: nil) ++ map (fun p => (snd p, g p)) l) = 1%nat).
+  rewrite cnt_app. destruct H as [->|H].
+  - rewrite cnt_one_same, cnt_drain_out; [reflexivity|exact Hn].
+  - rewrite cnt_one_other, IH; auto. intros ->. apply Hn. exact H.
+Qed.
+
+(* ====================================================================== *)
+(* the invariant                                                          *)
+(* ====================================================================== *)
+Definition good (s : st) (i : N) : Prop :=
+  match s.(phase_of) i with
+  | Writing | Ret None =>
+    (In i (ids s.(pending)) /\ cnt i s.(fired) = 0%nat) \/
+    (~ In i (ids s.(pending)) /\ cnt i s.(fired) = 1%nat)
+  | _ => ~ In i (ids s.(pending)) /\ cnt i s.(fired) = 0%nat
+  end.
+
+Record Inv (s : st) : Prop := mkInv {
+  i_nd_n : NoDup (nms s.(pending));
+  i_nd_i : NoDup (ids s.(pending));
+  i_name : forall n i, In (n, i) s.(pending) -> s.(rname) i = n;
+  i_good : forall i, good s i;
+  i_mu : forall i, s.(mu) = Some i <-> s.(phase_of) i = Writing;
+  i_own : forall i j, s.(phase_of) i = Writing -> In (s.(rname) i, j) s.(pending) -> j = i;
+  i_done : s.(rd) = RDone -> s.(pending) = [];
+  i_closed : match s.(rd) with RStop2 _ | RDone => s.(closed) = true | _ => True end;
+  i_dead : s.(alive) = false -> s.(out_open) = false /\ s.(in_open) = false /\ s.(buf) = [] }.
+
+Lemma inv_init : Inv init.
+Proof.
+  constructor; simpl; try (constructor; fail); try tauto; try discriminate.
+  - intros i. unfold good. simpl. split; [tauto|reflexivity].
+  - intros i. split; discriminate.
+Qed.
+
+(* a step that leaves the runner's own variables alone keeps the invariant *)
+Lemma inv_env s s' :
+  Inv s ->
+  s'.(pending) = s.(pending) -> s'.(rname) = s.(rname) -> s'.(phase_of) = s.(phase_of) ->
+  s'.(fired) = s.(fired) -> s'.(mu) = s.(mu) -> s'.(rd) = s.(rd) ->
+  (s.(closed) = true -> s'.(closed) = true) ->
+  (s'.(alive) = false -> s'.(out_open) = false /\ s'.(in_open) = false /\ s'.(buf) = []) ->
+  Inv s'.
+Proof.
+  intros [A B C D E F G H I] Ep En Eph Ef Em Er Hc Hd.
+  constructor; unfold good in *; rewrite ?Ep, ?En, ?Eph, ?Ef, ?Em, ?Er; auto.
+  destruct (rd s); auto.
+Qed.
+
+Ltac upd j i := unfold updf; destruct (N.eqb_spec j i) as [->|?].
+
+Lemma good_idle_free s i : Inv s -> s.(phase_of) i = Idle -> ~ In i (ids s.(pending)) /\ cnt i s.(fired) = 0%nat.
+Proof. intros H E. pose proof (i_good _ H i) as G. unfold good in G. rewrite E in G. exact G. Qed.
+
+Lemma in_ids n i (l : list (name * N)) : In (n, i) l -> In i (ids l).
+Proof. intros H. change i with (snd (n, i)). apply in_map. exact H. Qed.
+Lemma in_nms n i (l : list (name * N)) : In (n, i) l -> In n (nms l).
+Proof. intros H. change n with (fst (n, i)). apply in_map. exact H. Qed.
+Lemma ids_in i (l : list (name * N)) : In i (ids l) -> exists n, In (n, i) l.
+Proof. unfold ids. rewrite in_map_iff. intros ([n j] & E & H). simpl in E; subst. eauto. Qed.
+
+Lemma inv_sendcheck X s i n : Inv s -> Inv (step_with X s (SendCheck i n)).
+Proof.
+  intros H. simpl. destruct (phase_of s i) eqn:Ph; try exact H.
+  destruct (good_idle_free s i H Ph) as [Hni Hc0].
+  destruct H as [A B C D E F G Hc Hd].
+  constructor; simpl; auto.
+  - intros n' j Hin. upd j i; [|auto]. exfalso. apply Hni. eapply in_ids; eauto.
+  - intros j. unfold good; simpl. upd j i.
+    + destruct (err s); auto.
+    + apply D.
+  - intros j. upd j i; [|apply E].
+    rewrite E, Ph. destruct (err s); split; discriminate.
+  - intros j k. upd j i; [destruct (err s); discriminate|].
+    upd j i; [congruence|]. apply F.
+Qed.
+
+Lemma ids_snoc j l n i : In j (ids (l ++ [(n, i)])) <-> In j (ids l) \/ j = i.
+Proof. unfold ids. rewrite map_app, in_app_iff. simpl. intuition. Qed.
+
+Lemma lookup_none_nms n l : lookup n l = None -> ~ In n (nms l).
+Proof.
+  intros E Hin. unfold nms in Hin. rewrite in_map_iff in Hin. destruct Hin as ([m j] & Em & Hin).
+  simpl in Em; subst. eapply lookup_none; eauto.
+Qed.
+
+Lemma good_transfer s s' j :
+  s'.(phase_of) j = s.(phase_of) j -> s'.(fired) = s.(fired) ->
+  (In j (ids s'.(pending)) <-> In j (ids s.(pending))) -> good s j -> good s' j.
+Proof.
+  unfold good. intros -> -> Hiff. destruct (phase_of s j) as [| | |[e|]]; tauto.
+Qed.
+
+Lemma inv_refuse s s' i e :
+  Inv s ->
+  s'.(pending) = s.(pending) -> s'.(rname) = s.(rname) -> s'.(fired) = s.(fired) ->
+  s'.(mu) = s.(mu) -> s'.(rd) = s.(rd) -> s'.(closed) = s.(closed) ->
+  s'.(alive) = s.(alive) -> s'.(out_open) = s.(out_open) -> s'.(in_open) = s.(in_open) -> s'.(buf) = s.(buf) ->
+  s'.(phase_of) = updf s.(phase_of) i (Ret (Some e)) ->
+  s.(phase_of) i <> Writing -> ~ In i (ids s.(pending)) -> cnt i s.(fired) = 0%nat ->
+  Inv s'.
+Proof.
+  intros [A B C D E F G Hc Hd] Ep En Ef Em Er Ec Ea Eo Ei Eb Eph NW Hni Hc0.
+  constructor; unfold good; rewrite ?Ep, ?En, ?Ef, ?Em, ?Er, ?Ec, ?Ea, ?Eo, ?Ei, ?Eb, ?Eph; auto.
+  - intros j. upd j i; [auto|apply D].
+  - intros j. upd j i; [|apply E]. rewrite E. split; [tauto|discriminate].
+  - intros j k. upd j i; [discriminate|apply F].
+Qed.
+
+Lemma inv_sendlock X s i : Inv s -> Inv (step_with X s (SendLock i)).
+Proof.
+  intros H. simpl. destruct (phase_of s i) eqn:Ph; try exact H.
+  destruct (mu s) eqn:Mu; try exact H.
+  pose proof (i_good _ H i) as Gi. unfold good in Gi. rewrite Ph in Gi. destruct Gi as [Hni Hc0].
+  assert (NoW : forall j, phase_of s j <> Writing).
+  { intros j Hj. apply (i_mu _ H) in Hj. congruence. }
+  destruct (closed s) eqn:Cl; [|destruct (lookup (rname s i) (pending s)) eqn:Lk].
+  1,2: eapply (inv_refuse s); simpl; eauto; congruence.
+  destruct H as [A B C D E F G Hc Hd]. constructor; simpl.
+  - apply nodup_map_app_one; [exact A|]. simpl. apply lookup_none_nms. exact Lk.
+  - apply nodup_map_app_one; [exact B|]. exact Hni.
+  - intros n j Hin. apply in_app_iff in Hin. destruct Hin as [Hin|[Hin|[]]]; [auto|]. inversion Hin; subst; reflexivity.
+  - intros j. destruct (N.eqb_spec j i) as [->|Hne].
+    + unfold good; simpl. unfold updf. rewrite N.eqb_refl. left. split; [apply ids_snoc; right; reflexivity|exact Hc0].
+    + apply (good_transfer s); simpl; auto.
+      * unfold updf. destruct (N.eqb_spec j i); [congruence|reflexivity].
+      * rewrite ids_snoc. intuition.
+  - intros j. upd j i; [tauto|]. split; [intros E1; inversion E1; congruence|]. intros Hj. exfalso. eapply NoW; eauto.
+  - intros j k. upd j i; [|intros Hj; exfalso; eapply NoW; eauto].
+    intros _ Hin. apply in_app_iff in Hin. destruct Hin as [Hin|[Hin|[]]].
+    + exfalso. eapply lookup_none; eauto.
+    + inversion Hin; reflexivity.
+  - intros Hr. rewrite Hr in Hc. congruence.
+  - rewrite <- Cl. exact Hc.
+  - exact Hd.
+Qed.
+
+Lemma remove_facts l l1 l2 n i :
+  NoDup (nms l) -> NoDup (ids l) -> l = l1 ++ (n, i) :: l2 ->
+  NoDup (nms (l1 ++ l2)) /\ NoDup (ids (l1 ++ l2)) /\ ~ In i (ids (l1 ++ l2)) /\
+  (forall j, j <> i -> (In j (ids (l1 ++ l2)) <-> In j (ids l))) /\
+  (forall p, In p (l1 ++ l2) -> In p l).
+Proof.
+  intros A B ->. unfold nms, ids in *.
+  destruct (nodup_map_remove fst l1 (n, i) l2 A) as [A1 _].
+  destruct (nodup_map_remove snd l1 (n, i) l2 B) as [B1 B2].
+  repeat split; auto.
+  - rewrite !map_app, !in_app_iff. simpl. tauto.
+  - rewrite !map_app, !in_app_iff. simpl. intros [Z|[Z|Z]]; auto. congruence.
+  - intros p Z. apply in_app_iff in Z. apply in_app_iff. simpl. tauto.
+Qed.
+
+Lemma no_other_writer s i j : Inv s -> s.(phase_of) i = Writing -> s.(phase_of) j = Writing -> j = i.
+Proof.
+  intros H Hi Hj. apply (i_mu _ H) in Hi. apply (i_mu _ H) in Hj. congruence.
+Qed.
+
+Lemma inv_writeok X s i : Inv s -> Inv (step_with X s (WriteOk i)).
+Proof.
+  intros H. simpl. destruct (phase_of s i) eqn:Ph; try exact H.
+  destruct (alive s && in_open s); [|exact H].
+  assert (Only : forall j, phase_of s j = Writing -> j = i) by (intros j Hj; eapply no_other_writer; eauto).
+  pose proof (i_good _ H i) as Gi. unfold good in Gi. rewrite Ph in Gi.
+  destruct H as [A B C D E F G Hc Hd]. constructor; simpl; auto.
+  - intros j. unfold good; simpl. upd j i; [exact Gi|apply D].
+  - intros j. upd j i; [split; discriminate|].
+    split; [discriminate|]. intros Hj. exfalso. auto.
+  - intros j k. upd j i; [discriminate|]. intros Hj. exfalso. auto.
+Qed.
+
+Lemma inv_writefail X s i : Inv s -> Inv (step_with X s (WriteFail i)).
+Proof.
+  intros H. simpl. destruct (phase_of s i) eqn:Ph; try exact H.
+  destruct (in_open s); [exact H|].
+  assert (Only : forall j, phase_of s j = Writing -> j = i) by (intros j Hj; eapply no_other_writer; eauto).
+  pose proof (i_good _ H i) as Gi. unfold good in Gi. rewrite Ph in Gi.
+  destruct (lookup (rname s i) (pending s)) eqn:Lk.
+  - assert (n = i) as ->. { eapply (i_own _ H); eauto. apply lookup_some. exact Lk. }
+    destruct (remove_split _ _ _ Lk) as (l1 & l2 & El & Er). rewrite Er.
+    destruct H as [A B C D E F G Hc Hd].
+    destruct (remove_facts _ l1 l2 _ i A B El) as (A1 & B1 & Hni & Hiff & Hsub).
+    assert (Hin : In i (ids (pending s))). { rewrite El. unfold ids. rewrite map_app, in_app_iff. simpl. auto. }
+    constructor; simpl; auto.
+    + intros j. destruct (N.eqb_spec j i) as [->|Hne].
+      * unfold good; simpl. unfold updf. rewrite N.eqb_refl. split; [exact Hni|]. destruct Gi as [[_ Z]|[Z _]]; tauto.
+      * apply (good_transfer s); simpl; auto. unfold updf. destruct (N.eqb_spec j i); [congruence|reflexivity].
+    + intros j. upd j i; [split; discriminate|]. split; [discriminate|]. intros Hj. exfalso; auto.
+    + intros j k. upd j i; [discriminate|]. intros Hj. exfalso; auto.
+    + intros Hr. apply G in Hr. rewrite Hr in El. destruct l1; discriminate.
+    + intros Ha. destruct (Hd Ha) as (? & _ & ?); auto.
+  - destruct H as [A B C D E F G Hc Hd]. constructor; simpl; auto.
+    + intros j. unfold good; simpl. upd j i; [exact Gi|apply D].
+    + intros j. upd j i; [split; discriminate|]. split; [discriminate|]. intros Hj. exfalso; auto.
+    + intros j k. upd j i; [discriminate|]. intros Hj. exfalso; auto.
+    + intros Ha. destruct (Hd Ha) as (? & _ & ?); auto.
+Qed.
+
+Lemma next_item_nil : next_item [] = INeed.
+Proof. reflexivity. Qed.
+
+Lemma inv_reader_stops s r b :
+  Inv s -> (s.(alive) = false -> b = []) -> Inv (reader_stops s r b).
+Proof.
+  intros [A B C D E F G Hc Hd] Hb.
+  destruct r; constructor; simpl; auto; try discriminate;
+    intros Ha; destruct (Hd Ha) as (? & ? & ?); auto.
+Qed.
+
+Lemma inv_reader_step s : Inv s -> s.(rd) = RRun -> Inv (reader_step s).
+Proof.
+  intros H Hr. unfold reader_step.
+  assert (Dead : alive s = false -> next_item (buf s) = INeed).
+  { intros Ha. destruct (i_dead _ H Ha) as (_ & _ & ->). reflexivity. }
+  destruct (next_item (buf s)) as [|m rest|rest] eqn:NI.
+  - destruct (out_open s); [exact H|]. apply inv_reader_stops; auto.
+  - assert (Al : alive s = false -> rest = []).
+    { intros Ha. apply Dead in Ha. discriminate. }
+    destruct (decode m) as [[n tag]|]; [|apply inv_reader_stops; auto].
+    destruct (lookup n (pending s)) as [i|] eqn:Lk; [|apply inv_reader_stops; auto].
+    destruct (remove_split _ _ _ Lk) as (l1 & l2 & El & Er). rewrite Er.
+    pose proof (i_good _ H i) as Gi. unfold good in Gi.
+    destruct H as [A B C D E F G Hc Hd].
+    destruct (remove_facts _ l1 l2 _ i A B El) as (A1 & B1 & Hni & Hiff & Hsub).
+    assert (Hin : In i (ids (pending s))). { rewrite El. unfold ids. rewrite map_app, in_app_iff. simpl. auto. }
+    constructor; simpl; auto; try discriminate.
+    + intros j. unfold good; simpl. rewrite cnt_app. destruct (N.eqb_spec j i) as [->|Hne].
+      * rewrite cnt_one_same. destruct (phase_of s i) as [| | |[e|]]; try tauto;
+          (right; split; [exact Hni|]; destruct Gi as [[_ Z]|[Z _]]; [rewrite Z; reflexivity|tauto]).
+      * rewrite cnt_one_other by congruence. rewrite Nat.add_0_r.
+        pose proof (D j) as Gj. unfold good in Gj. pose proof (Hiff j Hne) as Hj. unfold ids in *.
+        destruct (phase_of s j) as [| | |[e|]]; tauto.
+    + intros Ha. apply Dead in Ha. discriminate.
+  - apply inv_reader_stops; auto. intros Ha. apply Dead in Ha. discriminate.
+Qed.
+
+Lemma inv_step X s a : Inv s -> Inv (step_with X s a).
+Proof.
+  intros H. destruct a.
+  - apply inv_sendcheck; exact H.
+  - apply inv_sendlock; exact H.
+  - apply inv_writeok; exact H.
+  - apply inv_writefail; exact H.
+  - simpl. destruct (alive s && out_open s) eqn:AO; [|exact H].
+    apply andb_true_iff in AO. destruct AO as [Al _].
+    eapply inv_env; eauto; simpl; try congruence.
+  - simpl. destruct (alive s) eqn:Al; [|exact H]. eapply inv_env; eauto; simpl; try discriminate.
+  - simpl. destruct (alive s) eqn:Al; [|exact H]. eapply inv_env; eauto; simpl; try discriminate.
+  - simpl. destruct (alive s) eqn:Al; [|exact H]. eapply inv_env; eauto; simpl; auto.
+  - simpl. destruct (negb (alive s) && negb (noticed s)); [|exact H].
+    eapply inv_env; eauto; simpl; try apply (i_dead _ H).
+  - simpl. destruct (rd s) eqn:Hr; try exact H. apply inv_reader_step; auto.
+  - simpl. destruct (rd s) eqn:Hr; try exact H. destruct (mu s) eqn:Mu; try exact H.
+    destruct H as [A B C D E F G Hc Hd]. constructor; simpl; auto; try discriminate.
+    + intros j. rewrite <- Mu. apply E.
+    + intros Ha. destruct (Hd Ha) as (? & ? & ?); auto.
+  - simpl. destruct (rd s) eqn:Hr; try exact H.
+    destruct H as [A B C D E F G Hc Hd]. constructor; simpl; auto; try (constructor; fail); try tauto.
+    + intros j. unfold good; simpl. rewrite cnt_app.
+      pose proof (D j) as Gj. unfold good in Gj.
+      destruct (in_dec N.eq_dec j (ids (pending s))) as [Hin|Hout].
+      * rewrite (cnt_drain_in j (fun p => OFail (fst p) (fail_code r))) by auto.
+        destruct (phase_of s j) as [| | |[e|]]; try tauto;
+          (right; split; [tauto|]; destruct Gj as [[_ Z]|[Z _]]; [rewrite Z; reflexivity|tauto]).
+      * rewrite (cnt_drain_out j (fun p => OFail (fst p) (fail_code r))) by auto. rewrite Nat.add_0_r.
+        destruct (phase_of s j) as [| | |[e|]]; tauto.
+    + rewrite Hr in Hc. exact Hc.
+  - simpl. destruct (mu s) eqn:Mu; [exact H|]. eapply inv_env; eauto; simpl.
+    intros Ha. destruct (i_dead _ H Ha) as (? & ? & ?); auto.
+  - simpl. eapply inv_env; eauto; simpl; try apply (i_dead _ H).
+  - simpl. destruct (rd s) eqn:Hr; try exact H. eapply inv_env; eauto; simpl; try apply (i_dead _ H).
+Qed.
+
+Lemma inv_run_from X s h : Inv s -> Inv (fold_left (step_with X) h s).
+Proof. revert s. induction h as [|a h IH]; intros s H; simpl; [exact H|]. apply IH. apply inv_step. exact H. Qed.
+
+Lemma inv_run_with X h : Inv (run_with X h).
+Proof. apply inv_run_from. apply inv_init. Qed.
+
+Lemma inv_run h : Inv (run h).
+Proof. apply (inv_run_with true). Qed.
